@@ -426,7 +426,14 @@ def load_known():
     if not os.path.exists(p):
         return {}
     d = json.load(open(p))
-    return {(e['property'], e['key']): e for e in d.get('findings', [])}
+    res = {(e['property'], e['key']): e for e in d.get('findings', [])}
+    frag = os.path.join(VERIF, 'known_findings.d')
+    if os.path.isdir(frag):
+        for f in sorted(os.listdir(frag)):
+            if f.endswith('.json'):
+                for e in json.load(open(os.path.join(frag, f))).get('findings', []):
+                    res[(e['property'], e['key'])] = e
+    return res
 
 
 def known_status(prop, key):
